@@ -55,7 +55,7 @@ def plan(tier, seed):
               A=pick(rng, ["linop", "func"]),
               mi=pick(rng, ["1", "2", "n-1", "n", "n+2"]),
               tol=pick(rng, [0.0, 0.0, 1e-6]),
-              layout=pick(rng, ["vec", "col"]))
+              layout=pick(rng, ["vec", "col", "mat"]))
     # mixed precision: the caller's x is single precision, the right-hand side double
     for i in range(40 if quick else 500):
         n = int(rng.integers(2, 13))
@@ -184,6 +184,10 @@ def run_cg(case):
     mi = {"1": 1, "2": 2, "n-1": max(1, n - 1), "n": n, "n+2": n + 2}[case["mi"]]
     col = case["layout"] == "col"
     shape = [n, 1] if col else [n]
+    if case["layout"] == "mat":
+        # the unknown is a 2-D array (an image): n = n1 * n2 unknowns, A acts on the array
+        n1 = max([d_ for d_ in range(1, n + 1) if n % d_ == 0 and d_ * d_ <= n])
+        shape = [n1, n // n1] if rng.random() < 0.5 else [n // n1, n1]
     if case["A"] == "linop" or col:
         if col:
             Aop = sp.linop.MatMul(shape, M)
@@ -194,9 +198,12 @@ def run_cg(case):
     else:
         Aop = lambda v: M @ v                # noqa: E731
         Pop = None if case["P"] == "none" else (lambda v: Pm @ v)
+    if case["layout"] == "mat":
+        Aop = lambda v: (M @ v.reshape(n)).reshape(shape)                 # noqa: E731
+        Pop = None if case["P"] == "none" else (lambda v: (Pm @ v.reshape(n)).reshape(shape))
     if case["P"] == "identity":
         # a valid preconditioner that returns its own argument (no fresh array)
-        Pop = sp.linop.Identity(shape) if col else (lambda v: v)
+        Pop = sp.linop.Identity(shape) if (col and case["layout"] != "mat") else (lambda v: v)
     elif case["P"] == "buffered":
         # a function preconditioner that writes into its own, re-used output buffer
         _buf = np.zeros(shape, dt)
@@ -231,11 +238,20 @@ def run_cg(case):
         # lock-step: solver objects must not share working storage
         M2 = hpd(rng, n, cplx, "geo", 10.0)
         decoy = sp.alg.ConjugateGradient(
-            (sp.linop.MatMul(shape, M2) if col else (lambda v: M2 @ v)),
+            ((lambda v: (M2 @ v.reshape(n)).reshape(shape)) if case["layout"] == "mat" else
+             sp.linop.MatMul(shape, M2) if col else (lambda v: M2 @ v)),
             crandn(rng, shape, dt), np.zeros(shape, dt), max_iter=mi + 3)
     xstar = np.linalg.solve(M, b)
     e0 = anorm(M, x0 - xstar)
     unit = anorm(M, xstar) + anorm(M, x0)       # problem scale for the absolute floors
+    # the residual norm the solver reports (stopping rule, progress display) is that of
+    # b - A x0 before the first update: sqrt(r^H P r)
+    r0_ = b - M @ x0
+    rn0 = float(np.sqrt(max(np.real(np.vdot(r0_, Pm @ r0_)), 0.0)))
+    if not abs(float(alg.resid) - rn0) <= 1e-9 * max(rn0, 1e-300) + 1e-12 * float(
+            np.sqrt(np.real(np.vdot(b, Pm @ b))) + np.sqrt(np.real(np.vdot(M @ x0, Pm @ (M @ x0))))):
+        return violated(sig, "reported residual norm %r before the first update, b - A x0 has "
+                        "%.6g" % (alg.resid, rn0), wit, mech="resid-initial")
     hist = []
     nupd = 0
     while not alg.done():
